@@ -54,6 +54,8 @@ type task struct {
 	yields    uint64 // task-local yield count (the schedule's clock)
 	opYields  uint64 // yields since the current API call began
 	swIdx     int    // next entry of sw[] to consider
+	recent    [4]int // the last few distinct sites visited (tight-loop detection)
+	streak    uint64 // consecutive steps that stayed within `recent`
 	aborting  bool   // this task has been sent the Abort panic
 	grace     uint64 // yields let through since then (deferred calls while unwinding)
 	fn        func()
@@ -446,6 +448,26 @@ func abortPoint() {
 	panic(&Abort{abortWhy})
 }
 
+// tightLoop notes a step at site and reports whether the running call has
+// spent an absurd number of consecutive steps within the same handful of
+// sites: a loop that makes no progress.  (A legitimate long computation -
+// text/template recursing 100 000 levels deep - cycles through dozens of
+// sites per level and never builds up a streak.)
+//
+//go:norace
+func tightLoop(t *task, site int) bool {
+	for i := range t.recent {
+		if t.recent[i] == site {
+			t.streak++
+			return t.streak > 100000000
+		}
+	}
+	copy(t.recent[1:], t.recent[:3])
+	t.recent[0] = site
+	t.streak = 0
+	return false
+}
+
 // Yield is a scheduling point.  site identifies the program location.
 //
 //go:norace
@@ -473,7 +495,7 @@ func Tick(site int) {
 	}
 	t := &tasks[cur]
 	t.opYields++
-	if t.opYields > opBudget {
+	if t.opYields > opBudget || tightLoop(t, site) {
 		stats.Hang = true
 		stats.HangTask = cur
 		aborted = true
@@ -500,6 +522,7 @@ func SeamYield(site int) {
 func OpBegin() {
 	if active {
 		tasks[cur].opYields = 0
+		tasks[cur].streak = 0
 	}
 }
 
@@ -515,7 +538,7 @@ func yieldPoint(site int, seam bool) {
 	stats.Yields++
 	seq++
 	stats.Hash = mix(stats.Hash, uint64(cur)<<32|uint64(uint32(site)))
-	if t.opYields > opBudget {
+	if t.opYields > opBudget || (site > 0 && tightLoop(t, site)) {
 		stats.Hang = true
 		stats.HangTask = cur
 		aborted = true
